@@ -45,7 +45,7 @@ pub(in crate::primitives) mod verif_c17b {
 
     /// BresenhamParameters::new: major/minor decomposition, thresholds and unit steps with the signs
     /// of the deltas; the major axis is y when |dy| >= |dx|.
-    //@harness prop=C17 kind=contract tier=quick class=P fns=src/primitives/line/bresenham.rs::BresenhamParameters::new;src/primitives/line/bresenham.rs::major_length
+    //@harness prop=C17,C08 kind=contract tier=quick class=P fns=src/primitives/line/bresenham.rs::BresenhamParameters::new;src/primitives/line/bresenham.rs::major_length
     #[kani::proof]
     fn c17_bresenham_parameters_new() {
         let line = Line::new(any_point(DOM), any_point(DOM));
@@ -111,7 +111,7 @@ mod verif_c17p {
     use crate::verif_probe::any_point;
 
     /// Points::new: starts at `start`, max(|dx|,|dy|) + 1 points remain, well-formed parameters, error 0
-    //@harness prop=C17 kind=contract tier=quick class=P fns=src/primitives/line/points.rs::Points::new
+    //@harness prop=C17,C08 kind=contract tier=quick class=P fns=src/primitives/line/points.rs::Points::new
     #[kani::proof]
     fn c17_points_new() {
         let line = Line::new(any_point(DOM), any_point(DOM));
